@@ -176,7 +176,10 @@ def write_evidence(prop, mod, tier, seed, m, wall, n_viol, known_seen, extra):
         import jsonschema
 
         schema = json.load(open("/root/.vp/EVIDENCE.schema.json"))
-        jsonschema.validate(ev, schema)
+        try:
+            jsonschema.validate(ev, schema)
+        except jsonschema.ValidationError as e:
+            m["inconclusive"].append("evidence does not validate: %s" % str(e).splitlines()[0])
     except ImportError:
         pass
     except FileNotFoundError:
